@@ -1,3 +1,4 @@
+OVERLAY = ['pathdata']   # overlay wrapper groups this property's harnesses call (overlay/<pkg>/zz_vp_<tag>.go)
 HARNESSES = {
     'NormalizeGen': dict(split={'verb': 19}),
     'NormalizeMD': dict(split={'verb': 16}),
